@@ -4,7 +4,7 @@ LEVEL = "model_checking"
 
 
 def run(ctx, args):
-    run_focus(ctx, "C06", [("MC_ProxyC06q.cfg", 1, 1)] if ctx.quick else [("MC_ProxyC06t.cfg", 1, 6)],
+    run_focus(ctx, "C06", [("MC_ProxyC06q.cfg", 2, 1)] if ctx.quick else [("MC_ProxyC06t.cfg", 1, 6)],
               reach=("Reach_HopInserted", "Reach_Backend"), driver_env={"VERIF_REPS": 2},
               rule="requests with 0-3 Via and 0-3 Record-Route entries in every header-line layout and 6 positions of From / Max-Forwards, "
                    "three relaying paths (backend, Route, static route), must-record-route on/off, next hop learned by source / by Via host / through another listener / not learned")
